@@ -26,14 +26,17 @@ AddRecord == /\ pc \in {"table", "rec"} /\ Len(recs) < MaxRecs
              /\ pc' = "rec" /\ UNCHANGED t
 Next == AddChrom \/ AddRecord
 Spec == Init /\ [][Next]_vars
-\* C05, with the repaired bounds check
-RejectsExactlyOutOfChrom == pc = "rec" => (RejectedA(t, recs, ob, TRUE) = Rejected(t, recs, ob))
+\* C05: the sanitizer as coded (non-strict test) rejects exactly the out-of-chromosome inputs - outside the input
+\* class of the open known finding F3; the strict test (tabix loader) does so everywhere
+RejectsExactlyOutOfChrom == pc = "rec" =>
+   /\ (~KnownFinding_F3(t, recs, ob) => (RejectedA(t, recs, ob, FALSE) = Rejected(t, recs, ob)))
+   /\ RejectedA(t, recs, ob, TRUE) = Rejected(t, recs, ob)
 RightPixelOnce == (pc = "rec" /\ ~Rejected(t, recs, ob)) =>
    /\ BinnedA(t, recs, ob, tril) = Binned(t, recs, ob, tril)
    /\ SumSeq([k \in DOMAIN Binned(t, recs, ob, tril) |-> Binned(t, recs, ob, tril)[k][3]]) = Retained(t, recs, ob, tril)
    /\ tril \in {"reflect", "drop"} => \A k \in DOMAIN Binned(t, recs, ob, tril) : Binned(t, recs, ob, tril)[k][1] <= Binned(t, recs, ob, tril)[k][2]
 OrderIndependent == (pc = "rec" /\ Len(recs) = 2 /\ ~Rejected(t, recs, ob)) =>
    Binned(t, <<recs[2], recs[1]>>, ob, tril) = Binned(t, recs, ob, tril)
-\* the pinned bounds check (position == chromosome length accepted) is refuted: F3
+\* without the exemption the coded bounds check (position == chromosome length accepted) is refuted: F3
 RejectsExactlyOutOfChromPinned == pc = "rec" => (RejectedA(t, recs, ob, FALSE) = Rejected(t, recs, ob))
 =============================================================================
